@@ -22,13 +22,25 @@ def main() -> int:
     if not a.prop:
         ap.error('property id required')
     prop = a.prop.upper()
-    from mc import core
-    if a.replay:
-        return core.run_replay(prop, a.replay)
-    tier = a.tier or os.environ.get('VERIF_TIER') or 'quick'
-    if tier not in ('quick', 'thorough'):
-        tier = 'quick'
-    return core.run_check(prop, tier, workers=a.workers, only_label=a.only)
+    # one scratch root per run: workers killed at a cap or at an early stop cannot clean up after themselves, the front end does
+    import shutil, tempfile
+    base = os.environ.get('VERIF_SCRATCH')
+    if not (base and os.path.isdir(base)):
+        base = '/dev/shm' if os.path.isdir('/dev/shm') and os.access('/dev/shm', os.W_OK) else tempfile.gettempdir()
+    root = tempfile.mkdtemp(prefix='vf-', dir=base)
+    os.environ['VERIF_SCRATCH'] = root
+    me = os.getpid()
+    try:
+        from mc import core
+        if a.replay:
+            return core.run_replay(prop, a.replay)
+        tier = a.tier or os.environ.get('VERIF_TIER') or 'quick'
+        if tier not in ('quick', 'thorough'):
+            tier = 'quick'
+        return core.run_check(prop, tier, workers=a.workers, only_label=a.only)
+    finally:
+        if os.getpid() == me:
+            shutil.rmtree(root, ignore_errors=True)
 
 
 if __name__ == '__main__':
